@@ -486,4 +486,5 @@ RULES = [
 	('15.q', 'no call hands a value named like one parameter of the callee to a different parameter (swapped type-compatible arguments; rules/provenance.py)', lambda F: provenance.swaps_for_property(F, 'C15', '15.q')),
 	('15.i', 'the message-body buffer size is computed in usize (length widened before the MAC length is added)', r15i),
 	('15.w', 'no length / count is added to or multiplied in an 8/16-bit type and widened afterwards (wrap-around at the top of the range; rules/provenance.py)', lambda F: provenance.narrow_for_property(F, 'C15', '15.w')),
+	('15.z', 'named protocol / policy constants in this property\'s files have their reviewed values (rules/provenance.py)', lambda F: provenance.consts_for_property(F, 'C15', '15.z')),
 ]
